@@ -3,7 +3,7 @@
 //! their generators are exported separately (`gen_skip`, `gen_cut`, `gen_fault`).
 //!
 //! ops (all answered by the Lean model as well, see lean/JominiModel/Driver/C08.lean):
-//!   blex <hex> | blexid <hex> | bpeek <hex> | bcut <hex> <k> | bwrite <toks>
+//!   bfits <cap> <hex> | blex <hex> | blexid <hex> | bpeek <hex> | bcut <hex> <k> | bwrite <toks>
 //!   bstream <cap> <sched> <hex> | bread <cap> <sched> <hex> | bcalls <cap> <sched> <hex> <n>
 //!   breadbytes <cap> <sched> <hex> <n,n,..>
 //!   bskip <cap> <sched> <hex> <k> | blexskip <hex> <k> | blexskipv <hex> <k>
@@ -371,6 +371,13 @@ pub fn exec(w: &[&str], obs: &mut Obs) -> Option<String> {
                 obs.count(if boundary { "cut:boundary" } else { "cut:inside" });
             }
             Some(format!("{} {} {}", join(&toks), outcome, lx.position()))
+        }
+        ["bfits", cw, h] => {
+            // the hypothesis of the streaming theorems as the harness computes it (min_cap);
+            // the driver evaluates the Lean definition `fitsBuffer`
+            let d = unhex(h)?;
+            let cap: usize = cw.parse().ok()?;
+            Some(if cap >= min_cap(&d) { "true" } else { "false" }.to_string())
         }
         ["blexid", h] => {
             let d = unhex(h)?;
@@ -963,6 +970,16 @@ pub fn gen_c08(g: &mut Gen) {
         }
     }
     g.count("generated-inputs");
+
+    // 5b. the fit hypothesis itself: harness min_cap vs the Lean definition
+    let n = g.budget(400, 8000);
+    for _ in 0..n {
+        let mut d = gen_input(g, 8);
+        d.truncate(48);
+        let m = min_cap(&d);
+        for cap in [m.saturating_sub(1), m, m + 1, g.rng.below(m + 3)] { g.emit(format!("bfits {} {}", cap, hex(&d))); }
+    }
+    g.count("fits-hypothesis");
 
     // 6. write -> lex for random token sequences (well-formed and not)
     let n = g.budget(1500, 40_000);
